@@ -29,6 +29,8 @@ Driver (Layer B)
   plane_wave       F(cos(2 pi k.x/N + phase)) == g * same wave, g = the prescribed gain at k (hard: exactly 0/1;
                    soft: plateaus, 0 <= g <= 1), lowpass + highpass == identity
   resolution_equiv F(x, resolution+pixel size) == F(x, round(N0*pix/res) Fourier pixels)
+  default_widths   F(x, cutoffs) with the edge widths omitted == F(x, cutoffs, documented default widths passed explicitly); bandpass also
+                   with only one of its two widths passed
 """
 import os
 import sys
@@ -76,6 +78,14 @@ ASSUMPTIONS = [
     "every oracle is relative to the map's own scale (max|x|, max|F|): the filters are linear, so maps over 24 orders of magnitude are in "
     "the quantifier ('all real maps') and an absolute error is a relative one on small-valued maps; float32 maps are kept within 1e-12..1e12 "
     "too (values next to the float32 maximum overflow numpy's single-precision FFT and are not generated)",
+    "maps are also passed in non-native byte order, Fortran order, as axis-swapped / negatively strided / sliced views and read-only, as "
+    "int8/16/32/64, uint8, float32 arrays, numeric arguments as numpy scalars and 0-d arrays: the expected value is always computed from the "
+    "values the array holds.  Edge widths OMITTED must act like the documented defaults (lowpass 3, highpass 2, bandpass 3/2) passed "
+    "explicitly (monitor default_widths)",
+    "not generated (accepted by the lead as outside what the property speaks about): ONE band-pass width passed as np.float32 next to the other "
+    "as a Python number - skimage builds its Gaussian kernel in the precision of sigma, so the two spheres are blurred with kernels that differ "
+    "by ~1e-8 and an empty band (equal cutoffs, equal widths) shows a gain of -2e-9 on the unchanged code; both widths of the SAME scalar kind "
+    "(also both np.float32) are generated and nest exactly",
     "band-pass gain >= 0 is judged only where it follows from the statement: equal widths and hp <= lp, or stop band of the inner "
     "filter reached before the outer one starts to fall; band-pass == LP(lp) - LP(hp) is judged always",
 ]
@@ -112,7 +122,7 @@ def plan(tier):
                     min_evals={"lp_gain": 4400, "lp_hard_edge": 2800, "lp_soft_edge": 1500, "lp_soft_rays": 800, "lp_soft_symmetry": 700,
                                "hp_gain": 4200, "hp_complement": 4200, "bp_difference": 1600, "bp_gain": 1600,
                                "res2pix": 12900, "filter_radius": 28700, "linearity": 1100, "shift_commute": 580, "plane_wave": 8000,
-                               "resolution_equiv": 500, "default_widths": 500})
+                               "resolution_equiv": 500, "default_widths": 950})
     return dict(n_cases=16 * 50 * len(CLASSES), shards=16, classes=CLASSES, timeout_s=3300,
                 min_evals={"lp_gain": 90000, "lp_hard_edge": 45000, "lp_soft_edge": 45000, "lp_soft_rays": 20000, "lp_soft_symmetry": 16000,
                            "hp_gain": 90000, "hp_complement": 90000, "bp_difference": 45000, "bp_gain": 45000, "res2pix": 160000,
